@@ -4,12 +4,16 @@
    tokens of the token table (whole tokens, trivia and erroneous text included), and the token
    texts spell the input.  Ranges are not stored in the model tree: a node's range IS the span
    of its leaves, so "children tile their parent" holds by construction of the rose tree.
-   PARTIAL: that b is the whole table (the builder's is_eof) needs the count of raw tokens per
-   parser token (jointness => adjacency) which is not proved yet; it is asserted on the
-   implementation by the oracle (text() == input) on every generated case. *)
+   And b is the whole table: every Token event of n > 1 raw tokens was formed from adjacent
+   ("joint") input tokens (Proofs/JointB.v: an invariant every primitive preserves, hence every
+   grammar function), a joint non-float input token is directly followed by a non-trivia raw
+   token (Proofs/PipelineB.v: the parser input described without its accumulator), so the trivia
+   builder consumes exactly the non-trivia raw tokens the parser accounted for and ends at the
+   end of the table.  Hence: whenever a tree is returned, it spells the whole input
+   (C02_tree_spells_input, for every text and both entry points). *)
 From Coq Require Import NArith Arith List Bool.
 From OQ3 Require Import gen.Kinds Model.Lexer Model.Lexed Model.Parser Model.Grammar Model.Builder
-                        Proofs.LexerP Proofs.BuilderP.
+                        Proofs.LexerP Proofs.BuilderP Proofs.PipelineB.
 Import ListNotations.
 
 Theorem C02_token_texts_spell_input : forall l, concat (ltexts (lexed_of l)) = l.
@@ -31,7 +35,17 @@ Theorem C02_tree_spells_prefix_partial : forall l r,
   exists b, tree_text (pr_tree r) = concat (firstn b (ltexts (lexed_of l))).
 Proof. exact parse_source_prefix. Qed.
 
+(* the full statement: a returned tree is rooted at SOURCE_FILE and spells the input *)
+Theorem C02_tree_spells_input : forall l r,
+  parse_source l = POk r -> tree_kind (pr_tree r) = K_SOURCE_FILE /\ tree_text (pr_tree r) = l.
+Proof. intros l r H. pose proof (parse_source_total l) as HT. rewrite H in HT. exact HT. Qed.
+Theorem C02_tree_spells_input_check_lex : forall l r,
+  parse_check_lex l = POk r -> tree_kind (pr_tree r) = K_SOURCE_FILE /\ tree_text (pr_tree r) = l.
+Proof. intros l r H. pose proof (parse_check_lex_total l) as HT. rewrite H in HT. exact HT. Qed.
+
 Print Assumptions C02_token_texts_spell_input.
 Print Assumptions C02_tree_build_lossless.
 Print Assumptions C02_builder_emits_table_prefix.
 Print Assumptions C02_tree_spells_prefix_partial.
+Print Assumptions C02_tree_spells_input.
+Print Assumptions C02_tree_spells_input_check_lex.
